@@ -326,6 +326,10 @@ class C02Prop(core.Prop):
         for e in evs:
             if (e.ep, e.step, e.agent, e.what) == (at.get("ep"), at.get("step"), at.get("agent"), at.get("what")):
                 return self._case(sdesc, e)
+        if at.get("what") == "build" and evs:
+            # the description records that building the stack raised; it builds now (a repaired finding kept as a
+            # regression case): the case is the first thing the session then checks
+            return self._case(sdesc, evs[0])
         raise LookupError("no such event")
 
     # -- verdict --------------------------------------------------------------------------------------
